@@ -153,6 +153,10 @@ func TestVerifC07(t *testing.T) {
 		vfC07RelativeStart(t, r)
 	}
 	caseNo++
+	if r.Begin(caseNo, "first-touch order") {
+		vfC07FirstTouch(t, r)
+	}
+	caseNo++
 	if r.Begin(caseNo, "drm packages") {
 		vfC07DrmPackages(t, r)
 	}
@@ -218,6 +222,58 @@ func vfC07RelativeStart(t *testing.T, r *rep.R) {
 				}
 			}
 		}
+	}
+}
+
+// vfC07FirstTouch: process-wide state (memo tables, caches) keyed too coarsely makes an answer depend on which asset or start time
+// touched the key first; a replay inside the same process cannot see that once the table is filled. The status-code schedule is
+// periodic in its cycle, so the same requests are made in two passes at instants one cycle-multiple apart with the order of the
+// assets (and start times) swapped: the status sequences of each asset must be the same in both passes.
+func vfC07FirstTouch(t *testing.T, r *rep.R) {
+	s := vfBundledServer(t)
+	type tgt struct{ cfg, asset string }
+	tgts := []tgt{{"", "testpic_2s"}, {"", "testpic_6s"}, {"start_30/", "testpic_2s"}, {"start_60/", "testpic_6s"}}
+	pat := "statuscode_[{cycle:30,rsq:0,code:404},{cycle:30,rsq:2,code:503,rep:V300}]/"
+	const T1, T2 = 3_600_000, 3_600_000 + 7*30_000*12 // both multiples of 30 s and of every loop duration used (8 s, 6*? s): 2520 s apart
+	statuses := func(base int64, order []int) map[int][]int {
+		out := map[int][]int{}
+		for j := int64(1); j <= 10; j++ {
+			nowMS := base + j*6000 + 50
+			for _, ti := range order {
+				tg := tgts[ti]
+				d := int64(2)
+				if tg.asset == "testpic_6s" {
+					d = 6
+				}
+				st := int64(0)
+				fmt.Sscanf(tg.cfg, "start_%d/", &st)
+				nr := (nowMS/1000-st)/d - 1 // the newest complete segment (start number 0)
+				u := fmt.Sprintf("/livesim2/%s%s%s/V300/%d.m4s?nowMS=%d", tg.cfg, pat, tg.asset, nr, nowMS)
+				resp := vfGet(s, u)
+				r.Eval(1)
+				if resp.Code == 500 && len(resp.Body) == 0 {
+					r.Violation("first-touch:crash", map[string]any{"url": u})
+				}
+				out[ti] = append(out[ti], resp.Code)
+			}
+		}
+		return out
+	}
+	p1 := statuses(T1, []int{0, 1, 2, 3})
+	p2 := statuses(T2, []int{3, 2, 1, 0})
+	for ti := range tgts {
+		if fmt.Sprint(p1[ti]) != fmt.Sprint(p2[ti]) {
+			r.Violation("first-touch:status-sequence-depends-on-request-order", map[string]any{"target": tgts[ti].cfg + tgts[ti].asset, "pattern": pat,
+				"pass1_order_0123_base_ms": T1, "pass1": p1[ti], "pass2_order_3210_base_ms": T2, "pass2": p2[ti]})
+			continue
+		}
+		hits := 0
+		for _, c := range p1[ti] {
+			if c != 200 {
+				hits++
+			}
+		}
+		r.Class(fmt.Sprintf("first-touch|%s%s|non-200=%d", tgts[ti].cfg, tgts[ti].asset, hits))
 	}
 }
 
